@@ -1,50 +1,145 @@
-(* C04 — corollaries in the form the property is worded, witnesses outside the guards, non-vacuity examples. *)
+(* C04 — corollaries in the form the property is worded, witnesses outside the guard, non-vacuity examples. *)
 From NG Require Import Common.Tactics Exec.CallTree Exec.Spec Exec.CallTreeFrame Exec.CallTreeProofs.
 Open Scope N_scope.
 
 (* the fee is charged whatever happens; a transaction that does not halt changes nothing else *)
-Theorem tx_atomic_fault pol base fee p :
-  halted (apply_tx pol base fee p) = false -> after (apply_tx pol base fee p) = charge fee base.
+Theorem tx_atomic_fault pol base sender fee p :
+  halted (apply_tx pol base sender fee p) = false -> after (apply_tx pol base sender fee p) = charge sender fee base.
 Proof. apply run_tx_fault. Qed.
 
-Theorem tx_atomic_halt pol base fee p :
-  guard pol p = true -> halted (apply_tx pol base fee p) = true ->
-  let i := irun_tx (charge fee base) p in
-  ihalted i = true /\ lst (after (apply_tx pol base fee p)) = ist (iafter i) /\
-  dflt (lnc (after (apply_tx pol base fee p))) = ifee (iafter i) /\
-  events (apply_tx pol base fee p) = intf (iafter i).
+Theorem tx_atomic_halt pol base sender fee p :
+  guard pol p = true -> clean (apply_tx pol base sender fee p) = true -> halted (apply_tx pol base sender fee p) = true ->
+  let i := irun_tx (charge sender fee base) p in
+  ihalted i = true /\ lst (after (apply_tx pol base sender fee p)) = ist (iafter i) /\
+  dflt (lnc (after (apply_tx pol base sender fee p))) = ifee (iafter i) /\
+  dflt (lvc (after (apply_tx pol base sender fee p))) = ivc (iafter i) /\
+  events (apply_tx pol base sender fee p) = intf (iafter i).
 Proof.
-  intros G H. destruct (run_tx_exact pol (charge fee base) p G) as [A B]. unfold apply_tx in *.
+  intros G C H. destruct (run_tx_exact pol (charge sender fee base) p G C) as [A B]. unfold apply_tx in *.
   simpl. split; [congruence|]. apply B; auto.
 Qed.
 
 (* a call made from inside a try body that throws: the caller's view is exactly what it was at the call,
-   whatever layered and un-layered callees below it had written, notified or set *)
+   whatever layered and un-layered callees below it had written, notified, moved or set *)
 Theorem failed_call_no_trace pol c f body cid fl s s' :
-  guard pol body = true -> ne s -> exc s = false ->
-  exec pol (Call c f body) cid fl true s = Thrown s' ->
+  guard pol body = true -> ne s ->
+  exec pol (Call c f body) cid fl true s = Thrown s' -> bad s' = false ->
   abs s' = rollback (abs s).
 Proof.
-  intros G H X E.
+  intros G H E B.
   assert (GC : guard pol (Call c f body) = true) by exact G.
-  pose proof (exec_sim pol _ GC cid fl true s H X) as S. rewrite E in S. cbn [iexec] in S.
-  destruct (has fl fR && has fl fC && (f <=? fAll) && is_contract c); [|tauto].
-  destruct (iexec body c (N.land fl f) (abs s)); try tauto.
+  pose proof (exec_sim pol _ GC cid fl true s H) as S. rewrite E in S. specialize (S B). cbn [iexec] in S.
+  destruct (has fl fR && has fl fC && (f <=? fAll) && is_contract c); [|simpl in S; tauto].
+  destruct (iexec body c (N.land fl f) (abs s)); simpl in S; try tauto.
   symmetry. apply S. reflexivity.
 Qed.
 
-(* ---------- outside the guards ---------- *)
+(* the syntactic condition of the first round is sufficient for the semantic one:
+   if no finally block contains a contract call, no frame ever returns while an exception is pending *)
+Lemma nocalls_bad pol p : nocalls p = true -> forall cid fl it s, bad (rstate (exec pol p cid fl it s)) = bad s.
+Proof.
+  induction p as [| | | | | |to amt cb IHcb|to amt cb IHcb| |p1 p2 IHp1 IHp2|c rf body IHbody|b c f IHb IHc IHf| |] using prog_ind';
+    intros NC cid cf it s; cbn [exec nocalls] in *; try discriminate; auto; try (case_if; reflexivity).
+  - apply andb_true_iff in NC. destruct NC as [N1 N2].
+    specialize (IHp1 N1 cid cf it s). destruct (exec pol p1 cid cf it s) as [s1|s1|s1]; simpl in *; auto.
+    rewrite IHp2; auto.
+  - apply andb_true_iff in NC. destruct NC as [NC N3]. apply andb_true_iff in NC. destruct NC as [N1 N2].
+    unfold try_of. destruct (is_some _ || is_some _); auto.
+    assert (FIN : forall ne0 s0, bad (rstate (fin_of (option_map (fun f' => exec pol f' cid cf it) f) ne0 s0)) = bad s0).
+    { intros ne0 s0. unfold fin_of. destruct f as [f'|]; simpl in *.
+      - specialize (IHf N3 cid cf it s0). destruct (exec pol f' cid cf it s0) as [x|x|x]; simpl in *; auto.
+        destruct (exc x); auto. destruct ne0; auto.
+      - destruct ne0; auto. }
+    specialize (IHb N1 cid cf true s). destruct (exec pol b cid cf true s) as [s1|s1|s1]; simpl in *; auto.
+    + rewrite FIN. exact IHb.
+    + destruct c as [c'|]; simpl in *.
+      * specialize (IHc N2 cid cf (catch_it pol it (is_some f)) (set_exc s1 false)).
+        destruct (exec pol c' cid cf (catch_it pol it (is_some f)) (set_exc s1 false)) as [s2|s2|s2]; simpl in *;
+          rewrite ?FIN; congruence.
+      * rewrite FIN. exact IHb.
+Qed.
+
+Theorem g2_clean pol p : g2 p = true -> forall cid fl it s, exc s = false -> bad (rstate (exec pol p cid fl it s)) = bad s.
+Proof.
+  induction p as [| | | | | |to amt cb IHcb|to amt cb IHcb| |p1 p2 IHp1 IHp2|c rf body IHbody|b c f IHb IHc IHf| |] using prog_ind';
+    intros G cid cf it s X; cbn [exec g2] in *; auto; try (case_if; reflexivity).
+  - (* Move *)
+    case_if; auto. cbv zeta. case_if.
+    { cbn [rstate]. rewrite bad_leave, bad_enter, exc_enter, X, andb_false_r, orb_false_r. reflexivity. }
+    case_if.
+    + set (S3 := move_state cid to amt (enter (wrapped it cf) s)).
+      assert (X3 : exc S3 = false) by (subst S3; simpl; rewrite exc_enter; exact X).
+      assert (B3 : bad S3 = bad s) by (subst S3; simpl; apply bad_enter).
+      pose proof (exec_exc pol cb to fAll false S3) as XX. specialize (IHcb G to fAll false S3 X3).
+      destruct (exec pol cb to fAll false S3) as [s4|s4|s4]; cbn [rstate] in *; try congruence.
+      rewrite (XX X3). cbn [andb rstate]. rewrite bad_leave, (XX X3), andb_false_r, orb_false_r. congruence.
+    + cbn [rstate]. rewrite bad_leave. simpl. rewrite bad_enter, exc_enter, X, andb_false_r, orb_false_r. reflexivity.
+  - (* MoveNeo *)
+    case_if; auto. cbv zeta. case_if.
+    { cbn [rstate]. rewrite bad_leave, bad_enter, exc_enter, X, andb_false_r, orb_false_r. reflexivity. }
+    set (S3 := neo_state cid to amt (enter (wrapped it cf) s)).
+    assert (X3 : exc S3 = false) by (subst S3; rewrite exc_neo, exc_enter; exact X).
+    assert (B3 : bad S3 = bad s) by (subst S3; rewrite bad_neo; apply bad_enter).
+    destruct (is_contract to).
+    + pose proof (exec_exc pol cb to fAll false S3) as XX. specialize (IHcb G to fAll false S3 X3).
+      destruct (exec pol cb to fAll false S3) as [s4|s4|s4]; cbn [rstate] in *; try congruence.
+      rewrite (XX X3). cbn [andb rstate]. rewrite bad_leave, exc_mint, exc_mint, (XX X3), andb_false_r, orb_false_r, !bad_mint. congruence.
+    + rewrite X3. cbn [andb rstate]. rewrite bad_leave, exc_mint, exc_mint, X3, andb_false_r, orb_false_r, !bad_mint. exact B3.
+  - (* SetFee *)
+    case_if; auto. cbn [rstate]. rewrite bad_leave. simpl. rewrite bad_enter, exc_enter, X, andb_false_r, orb_false_r. reflexivity.
+  - (* Seq *)
+    apply andb_true_iff in G. destruct G as [G1 G2].
+    pose proof (exec_exc pol p1 cid cf it s) as XX. specialize (IHp1 G1 cid cf it s X).
+    destruct (exec pol p1 cid cf it s) as [s1|s1|s1]; simpl in *; auto.
+    rewrite IHp2; auto.
+  - (* Call *)
+    case_if; auto. cbv zeta.
+    set (w := wrapped it (N.land cf rf)).
+    pose proof (exec_exc pol body c (N.land cf rf) false (enter w s)) as XX.
+    assert (X1 : exc (enter w s) = false) by (rewrite exc_enter; exact X).
+    specialize (IHbody G c (N.land cf rf) false (enter w s) X1). rewrite bad_enter in IHbody.
+    destruct (exec pol body c (N.land cf rf) false (enter w s)) as [s2|s2|s2]; cbn [rstate] in *.
+    + rewrite bad_leave, (XX X1), andb_false_r, orb_false_r. exact IHbody.
+    + rewrite bad_unload. exact IHbody.
+    + exact IHbody.
+  - (* Try *)
+    apply andb_true_iff in G. destruct G as [G N3]. apply andb_true_iff in G. destruct G as [G1 G2].
+    unfold try_of. destruct (is_some _ || is_some _); auto.
+    assert (FIN : forall ne0 s0, bad (rstate (fin_of (option_map (fun f' => exec pol f' cid cf it) f) ne0 s0)) = bad s0).
+    { intros ne0 s0. unfold fin_of. destruct f as [f'|]; simpl in *.
+      - pose proof (nocalls_bad pol f' N3 cid cf it s0) as Q. destruct (exec pol f' cid cf it s0) as [x|x|x]; simpl in *; auto.
+        destruct (exc x); auto. destruct ne0; auto.
+      - destruct ne0; auto. }
+    specialize (IHb G1 cid cf true s X). destruct (exec pol b cid cf true s) as [s1|s1|s1]; simpl in *; auto.
+    + rewrite FIN. exact IHb.
+    + destruct c as [c'|]; simpl in *.
+      * specialize (IHc G2 cid cf (catch_it pol it (is_some f)) (set_exc s1 false) eq_refl).
+        destruct (exec pol c' cid cf (catch_it pol it (is_some f)) (set_exc s1 false)) as [s2|s2|s2]; simpl in *;
+          rewrite ?FIN; congruence.
+      * rewrite FIN. exact IHb.
+Qed.
+
+Corollary g2_run_tx_clean pol base p : g2 p = true -> clean (run_tx pol base p) = true.
+Proof.
+  intros G. unfold run_tx. pose proof (g2_clean pol p G ENTRY fAll false (start base) eq_refl) as Q.
+  destruct (exec pol p ENTRY fAll false (start base)); simpl in *; rewrite Q; reflexivity.
+Qed.
+
+(* ---------- outside the guard ---------- *)
 
 Definition base0 : layer :=
-  mkL [((GASNS, 0), Some 1000); ((GASNS, 1), Some 1000); ((GASNS, 2), Some 1000); ((POLNS, 0), Some 1000)] (Some 1000).
+  mkL [((GASNS, 0), Some 1000); ((GASNS, 1), Some 1000); ((GASNS, 2), Some 1000); ((POLNS, 0), Some 1000);
+       ((NEONS, 0), Some 500); ((NEONS, 10), Some 7); ((NEONS, 20), Some 1); ((NEONS, 1), Some 300); ((NEONS, 11), Some 4);
+       ((NEONS, 30), Some 500); ((NEONS, 31), Some 500)]
+      (Some 1000) (Some 0).
 
-(* W1 (violates g1 and g2): contract 0 catches, and in the catch block calls contract 1, which pays contract 0
+(* W1 (Lazy only, violates g1): contract 0 catches, and in the catch block calls contract 1, which pays contract 0
    and then throws; contract 0's finally block then spends money it only has if that payment is still there *)
 Definition w1_A : prog :=
   Try Throw (Some (Call 1 15 (Seq (Move 0 500 Skip) Throw))) (Some (Move 2 1200 Abort)).
 Definition w1 : prog := Seq (Call 2 15 (Put 0 7)) (Try (Call 0 15 w1_A) (Some Skip) None).
 
-(* W2 (violates g2 only): a call made from a finally block that was entered by an exception is dropped when
+(* W2 (ghost flag set): a call made from a finally block that was entered by an exception is dropped when
    it returns normally and was layered (unloadContext: commit := uncaughtException == nil) *)
 Definition w2 : prog := Call 0 15 (Try (Try Throw None (Some (Call 1 15 (Put 3 4)))) (Some Skip) None).
 
@@ -54,7 +149,7 @@ Definition rollback_exact_statement (pol : policy) : Prop :=
 Lemma w1_lazy_faults_ideal_halts :
   halted (run_tx Lazy base0 w1) = false /\ ihalted (irun_tx base0 w1) = true /\
   lookup (2, 0) (ist (iafter (irun_tx base0 w1))) = Some 7 /\
-  tx_agree (run_tx Eager base0 w1) (irun_tx base0 w1).
+  tx_agree (run_tx Eager base0 w1) (irun_tx base0 w1) /\ clean (run_tx Eager base0 w1) = true.
 Proof. vm_compute. repeat split; congruence. Qed.
 
 Lemma rollback_exact_refuted_lazy : ~ rollback_exact_statement Lazy.
@@ -64,6 +159,7 @@ Qed.
 
 Lemma w2_pending_exception_drops_callee pol :
   halted (run_tx pol base0 w2) = true /\ ihalted (irun_tx base0 w2) = true /\
+  clean (run_tx pol base0 w2) = false /\
   lookup (1, 3) (lst (after (run_tx pol base0 w2))) = None /\
   lookup (1, 3) (ist (iafter (irun_tx base0 w2))) = Some 4.
 Proof. destruct pol; vm_compute; repeat split; congruence. Qed.
@@ -75,36 +171,61 @@ Proof.
   destruct (B T) as [C _]. destruct pol; vm_compute in C; discriminate.
 Qed.
 
-(* ---------- non-vacuity: guarded trees that exercise the mechanism ---------- *)
+(* ---------- non-vacuity: trees inside the guard that exercise the mechanism ---------- *)
 
 (* contract 0 writes, calls 1 inside a try; 1 writes, notifies, calls 2 WITHOUT a try (un-layered), 2 writes,
-   moves GAS, sets the fee and throws; 1 does not catch; 0 catches, writes, reads back *)
+   moves GAS, sets the fee, transfers NEO (votes, voters, votesChanged, two GAS claims) and throws; 1 does not catch;
+   0 catches, writes, reads back; a call in a finally block that is entered normally *)
 Definition ex1 : prog :=
   Call 0 15 (Seq (Put 0 1)
             (Seq (Try (Call 1 15 (Seq (Put 0 2) (Seq (Notify 7)
                         (Call 2 15 (Seq (Put 0 3) (Seq (Move 3 40 Skip) (Seq (SetFee 55) Throw)))))))
-                      (Some (Put 1 3)) (Some (Notify 9)))
+                      (Some (Put 1 3)) (Some (Seq (Notify 9) (Call 2 15 (Put 5 5)))))
             (Seq (NotifyVal 0) NotifyFee))).
 
-Lemma ex1_guarded : guard Lazy ex1 = true /\ guard Eager ex1 = true.
-Proof. split; reflexivity. Qed.
+Lemma ex1_guarded : guard Lazy ex1 = true /\ guard Eager ex1 = true /\ g2 ex1 = false /\
+                    clean (run_tx Lazy base0 ex1) = true /\ clean (run_tx Eager base0 ex1) = true.
+Proof. vm_compute. repeat split; reflexivity. Qed.
 
 Lemma ex1_runs :
   let m := run_tx Lazy base0 ex1 in
   halted m = true /\ events m = [EvN 0 9; EvV 0 0 (Some 1); EvP 0 1000] /\
   lookup (0, 0) (lst (after m)) = Some 1 /\ lookup (0, 1) (lst (after m)) = Some 3 /\
-  lookup (1, 0) (lst (after m)) = None /\ lookup (2, 0) (lst (after m)) = None /\
+  lookup (1, 0) (lst (after m)) = None /\ lookup (2, 0) (lst (after m)) = None /\ lookup (2, 5) (lst (after m)) = Some 5 /\
   lookup (GASNS, 2) (lst (after m)) = Some 1000 /\ lookup (GASNS, 3) (lst (after m)) = None /\
   lnc (after m) = Some 1000.
 Proof. vm_compute. repeat split; reflexivity. Qed.
 
+(* a NEO transfer by a voter inside a callee that then throws and is caught: balances, candidate votes, voters count,
+   both GAS claims and the votesChanged flag of the NEO cache are all as before; the same transfer committed *)
+Definition ex_neo (fails : bool) : prog :=
+  Call 1 15 (Seq (Try (Call 0 15 (Seq (MoveNeo 1 200 (Put 2 2)) (if fails then Throw else Skip))) (Some (Notify 1)) None)
+                 (Notify 2)).
+Lemma ex_neo_rolled_back :
+  let m := run_tx Eager base0 (ex_neo true) in
+  halted m = true /\ clean m = true /\ events m = [EvN 1 1; EvN 1 2] /\
+  lookup (kNeo 0) (lst (after m)) = Some 500 /\ lookup (kNeo 1) (lst (after m)) = Some 300 /\
+  lookup kCand (lst (after m)) = Some 500 /\ lookup kVoters (lst (after m)) = Some 500 /\
+  lookup (kClaim 0) (lst (after m)) = Some 7 /\ lookup (GASNS, 0) (lst (after m)) = Some 1000 /\
+  lookup (1, 2) (lst (after m)) = None /\ lvc (after m) = Some 0.
+Proof. vm_compute. repeat split; reflexivity. Qed.
+Lemma ex_neo_committed :
+  let m := run_tx Eager base0 (ex_neo false) in
+  halted m = true /\ clean m = true /\
+  events m = [EvTN 0 1 200; EvT NIL 0 7; EvT NIL 1 4; EvN 1 2] /\
+  lookup (kNeo 0) (lst (after m)) = Some 300 /\ lookup (kNeo 1) (lst (after m)) = Some 500 /\
+  lookup kCand (lst (after m)) = Some 300 /\ lookup kVoters (lst (after m)) = Some 300 /\
+  lookup (kClaim 0) (lst (after m)) = None /\ lookup (GASNS, 0) (lst (after m)) = Some 1007 /\
+  lookup (GASNS, 1) (lst (after m)) = Some 1004 /\ lookup (1, 2) (lst (after m)) = Some 2 /\ lvc (after m) = Some 1.
+Proof. vm_compute. repeat split; reflexivity. Qed.
+
 (* the same tree with the throw replaced by a fault: nothing at all is applied *)
 Definition ex2 : prog :=
-  Call 0 15 (Seq (Put 0 1) (Try (Call 1 15 (Seq (SetFee 55) Abort)) (Some Skip) None)).
-Lemma ex2_faults : halted (apply_tx Lazy base0 3 ex2) = false /\ after (apply_tx Lazy base0 3 ex2) = charge 3 base0.
+  Call 0 15 (Seq (Put 0 1) (Try (Call 1 15 (Seq (SetFee 55) (Seq (MoveNeo 0 100 Skip) Abort))) (Some Skip) None)).
+Lemma ex2_faults : halted (apply_tx Lazy base0 5 3 ex2) = false /\ after (apply_tx Lazy base0 5 3 ex2) = charge 5 3 base0.
 Proof. vm_compute. split; reflexivity. Qed.
 
 (* caught_call_no_trace's hypotheses are satisfiable *)
 Lemma ex3_caught :
-  exists s2, exec Lazy (Call 1 15 (Seq (Put 0 2) Throw)) 0 15 true (start base0) = Thrown s2.
-Proof. eexists. vm_compute. reflexivity. Qed.
+  exists s2, exec Lazy (Call 1 15 (Seq (Put 0 2) Throw)) 0 15 true (start base0) = Thrown s2 /\ bad s2 = false.
+Proof. eexists. vm_compute. split; reflexivity. Qed.
